@@ -17,7 +17,8 @@ from .serialization import (
     cell_to_parent,
     get_stride,
     is_first_child,
-    FIRST_HILBERT_RESOLUTION
+    FIRST_HILBERT_RESOLUTION,
+    HILBERT_START_BIT
 )
 from .cell_info import get_num_children
 
@@ -66,6 +67,17 @@ def uncompact(cells: List[int], target_resolution: int) -> List[int]:
     return result
 
 
+def _hierarchical_key(cell: int) -> int:
+    """
+    Sort key under which every cell is placed directly before its descendants.
+    Resolution 0 cells store the origin in the top 6 bits whereas all finer cells store
+    5 * origin + segment there, so they need to be rescaled to be comparable.
+    """
+    if get_resolution(cell) == 0:
+        return ((cell >> HILBERT_START_BIT) * 5) << HILBERT_START_BIT
+    return cell
+
+
 def compact(cells: List[int]) -> List[int]:
     """
     Compacts a set of A5 cells by replacing complete groups of sibling cells with their parent cells.
@@ -80,7 +92,7 @@ def compact(cells: List[int]) -> List[int]:
         return []
 
     # Single sort and dedup
-    current_cells = sorted(set(cells))
+    current_cells = sorted(set(cells), key=_hierarchical_key)
 
     # Compact until no more changes
     # No re-sorting needed - parents maintain sorted order!
